@@ -21,7 +21,7 @@ S_<TN_, TA_, EmptyT<TA_>>::wrapSelect(Control& HFSM2_IF_LOG_STATE_METHOD(control
 	HFSM2_LOG_STATE_METHOD(&Empty::select,
 						   Method::SELECT);
 
-	return INVALID_PRONG;
+	return Prong{0};
 }
 
 // - - - - - - - - - - - - - - - - - - - - - - - - - - - - - - - - - - - - - - -
